@@ -210,6 +210,9 @@ impl Bitstr {
     pub fn to_int(&self, order: Byteorder) -> i128 {
         let val = self.to_uint(order);
         let len = self.len() as u32;
+        if len == 0 {
+            return 0;
+        }
         let sign_bit = 1 << (len - 1);
         if len == i128::BITS {
             i128::from_le_bytes(val.to_ne_bytes())
